@@ -40,6 +40,8 @@ def plan(tier, seed):
         shards.append({'name': 'boundary-%d' % i, 'fn': 'shard_boundary', 'args': {'part': i, 'parts': b}})
     for i in range(2 if tier == 'quick' else 12):
         shards.append({'name': 'task-%d' % i, 'fn': 'shard_task', 'args': {'part': i}})
+    for i in range(2 if tier == 'quick' else 8):
+        shards.append({'name': 'aggregation-%d' % i, 'fn': 'shard_aggregation', 'args': {'part': i}})
     return shards
 
 
@@ -68,12 +70,25 @@ def model_batches(text, ncols, B, sub):
     return batches, len(cur), tail_used, invalid
 
 
+class Med(float):
+    """Median of the defined per-batch scores of a pair; .undefined says that some batch gave no defined score (NaN) for it.  A pair
+    whose batches all gave NaN has the value NaN.  For a pair with undefined batches the aggregate may skip them (what the frame
+    library does) or be undefined itself - nothing else is a median of those scores."""
+    undefined = False
+
+
 def median_table(triplet_batches):
     per = {}
     for tb in triplet_batches:
         for a, b, s in tb:
             per.setdefault((a, b), []).append(float(s))
-    return {k: statistics.median(v) for k, v in per.items()}
+    out = {}
+    for k, v in per.items():
+        fin = [x for x in v if x == x]
+        m = Med(statistics.median(fin) if fin else float('nan'))
+        m.undefined = len(fin) != len(v)
+        out[k] = m
+    return out
 
 
 def read_checkpoint(path):
@@ -87,7 +102,7 @@ def read_checkpoint(path):
             return {}
         ia, ib, isc = header.index('FeatureA'), header.index('FeatureB'), header.index('Score')
         for row in r:
-            out[(row[ia], row[ib])] = float(row[isc])
+            out[(row[ia], row[ib])] = float(row[isc]) if row[isc] != '' else float('nan')      # an undefined score is written as an empty cell
     return out
 
 
@@ -96,9 +111,9 @@ def same_table(got, exp):
         return False
     for k, v in exp.items():
         g = got[k]
-        if g != g and v != v:
+        if g != g and (v != v or getattr(v, 'undefined', False)):
             continue
-        if abs(g - v) > 1e-12 + 1e-12 * abs(v):
+        if g != g or v != v or (abs(g - v) > 1e-12 + 1e-12 * abs(v) and g != v):
             return False
     return True
 
@@ -401,3 +416,60 @@ def shard_task(sh, part):
             sh.ok('tail-rule')
         sh.case(('task', n_file, B, sub, tail_used, part, run), len(mb) >= 2 or 1023 <= remaining <= 1025, 'task/tail=%s' % ('used' if tail_used else 'dropped'),
                 sample={'file_rows': n_file, 'B': B, 'subsampling': sub, 'batches': [len(b) for b in mb], 'remaining': remaining, 'tail_used': tail_used, 'tsv_rows': len(got_rows)})
+
+
+def shard_aggregation(sh, part):
+    """The aggregation step on its own (get_grouped_df and the checkpoint writer) over score histories the scoring heuristics can
+    produce but the small files above rarely do: pairs missing from some batches, undefined scores (NaN - Pearson with a column that is
+    constant inside a batch) in some or all batches of a pair, ties, negative values, infinities, huge and tiny magnitudes, one batch
+    only, duplicate rows of a pair inside one batch."""
+    import math
+    cr = pipe.fresh_core_ranking()
+    rng = sh.rng('agg', part)
+    cwd = os.getcwd()
+    cp = os.path.join(cwd, 'ranking_checkpoint_tmp.tsv')
+    for t in range(150 if sh.tier == 'quick' else 1500):
+        nf = rng.randint(1, 6)
+        names = rng.sample(['a', 'b', 'label', 'f AND g', 'x-(3; 50%)', 'é', '0', 'A'], nf)
+        pairs = [(x, y) for x in names for y in names]
+        nb = rng.choice([1, 2, 3, 4, 5, 8])
+        regime = rng.choice(['plain', 'nan-some', 'nan-all-for-a-pair', 'ties', 'wide', 'inf'])
+        history, acc = [], []
+        doomed = rng.choice(pairs)
+        for b in range(nb):
+            batch = []
+            for pr in pairs:
+                if rng.random() < 0.15:
+                    continue
+                for _ in range(2 if rng.random() < 0.1 else 1):
+                    v = rng.choice([0.0, 0.25, 0.5, 1.0]) if regime == 'ties' else rng.uniform(-1, 1)
+                    if regime == 'wide':
+                        v *= 10.0 ** rng.choice([-12, -3, 0, 6, 15])
+                    if regime == 'inf' and rng.random() < 0.1:
+                        v = rng.choice([math.inf, -math.inf])
+                    if regime in ('nan-some', 'nan-all-for-a-pair') and rng.random() < 0.25:
+                        v = math.nan
+                    if regime == 'nan-all-for-a-pair' and pr == doomed:
+                        v = math.nan
+                    batch.append((pr[0], pr[1], v))
+            rng.shuffle(batch)
+            history.append(batch)
+            acc = acc + batch
+            exp = median_table(history)
+            ok, g = sh.call('median-aggregation', 'get_grouped_df', cr.get_grouped_df, list(acc))
+            if not ok:
+                continue
+            got = None if g is None else {(r.FeatureA, r.FeatureB): float(r.Score) for r in g.itertuples()}
+            if not acc:
+                sh.check('median-aggregation', got is None or not got, 'grouped-frame-without-batches', lambda: {'got': str(got)[:300]})
+                continue
+            # +/- inf in one pair: the median of an even count may be inf-inf; the model then holds NaN and only NaN or a bound is accepted
+            sh.check('median-aggregation', same_table(got, exp), 'grouped-frame!=per-pair-median',
+                     lambda: {'regime': regime, 'batches': b + 1, 'history': [[(a_, b_, repr(v_)) for a_, b_, v_ in hb][:12] for hb in history][:4], 'got': str(got)[:500], 'expected': str(exp)[:500]})
+            if os.path.exists(cp):
+                os.remove(cp)
+            ok, _ = sh.call('checkpoint-after-each-batch', 'checkpoint_importances_df', cr.checkpoint_importances_df, list(acc))
+            if ok:
+                sh.check('checkpoint-after-each-batch', same_table(read_checkpoint(cp), exp), 'checkpoint!=median-of-the-batches-so-far',
+                         lambda: {'regime': regime, 'batches': b + 1, 'checkpoint': str(read_checkpoint(cp))[:500], 'expected': str(exp)[:500]})
+        sh.case(('agg', part, t), nb > 1, 'aggregation/' + regime, sample={'regime': regime, 'features': names, 'batches': nb} if t % 50 == 0 else None)
